@@ -132,7 +132,7 @@ PROPS = {
     ),
     "C11": dict(
         group="search", level="exploration",
-        rule="one evaluation = one directory of healthy shards plus 1-2 corrupted copies of other repositories' shards (fault stream: truncation, bit flip, zeroed 4 KiB page, garbage block, scaled/incremented 32-bit field, byte set, maximal varint, swapped halves; positions biased to header, table of contents and the last 4 KiB; optional garbled .meta sidecar), loaded with the real directory searcher and queried 6 times. distinct_nontrivial = distinct (corpus, corruption list) hashes among cases in which at least one query had a non-empty reference over the healthy shards. Sweep sub-mode: one run = one (corpus shard, fault kind) pair with the fault applied at EVERY byte position of the 1-4 KiB shard image in turn (truncation; each of the 8 single-bit flips; byte := 00/7f/80/ff; 5-byte varints 2^32-1, 2^32-4, 2^31; big-endian 0xfffffff0), each damaged copy loaded with the real loadShard (mmap) next to a healthy shard and searched (5 queries) and listed; evaluations count every search/list call.",
+        rule="one evaluation = one directory of healthy shards plus 1-2 corrupted copies of other repositories' shards (fault stream: truncation, bit flip, zeroed 4 KiB page, garbage block, scaled/incremented 32-bit field, byte set, maximal varint, swapped halves; positions biased to header, table of contents and the last 4 KiB; optional garbled .meta sidecar), loaded with the real directory searcher and queried 6 times. distinct_nontrivial = distinct (corpus, corruption list) hashes among cases in which at least one query had a non-empty reference over the healthy shards. Sweep sub-mode: one run = one (corpus shard, fault kind) pair with the fault applied at EVERY byte position of the 1-4 KiB shard image in turn (truncation; each of the 8 single-bit flips; byte := 00/7f/80/ff; 5-byte varints 2^32-1, 2^32-2, 2^31; big-endian 0xfffffff0), each damaged copy loaded with the real loadShard (mmap) next to a healthy shard and searched (8 queries) and listed; evaluations count every search/list call.",
         harnesses=[dict(name="C11", quick=12000, thorough=600000, quick_deadline_s=120, thorough_deadline_s=1200, crash_is_violation=True, no_det=True, grace_s=420),
                    dict(name="C11/sweep", quick=40, thorough=4000, quick_deadline_s=100, thorough_deadline_s=1200, crash_is_violation=True, no_det=True, grace_s=300, env={"VERIF_MIN_S": "0"})],
         expect_faults=["truncate", "bitflip", "zero-page", "garbage-block", "u32-scale", "byte-set", "swap-halves", "varint-huge", "meta-sidecar"],
